@@ -95,8 +95,9 @@ type Clause struct {
 }
 
 type GhostAssign struct {
-	LHS Expr
-	RHS Expr
+	LHS   Expr
+	RHS   Expr
+	QVars []QVar // comprehension: ghost forall m T :: m.f := e  (every object's field at once)
 }
 
 type FuncSpec struct {
@@ -682,11 +683,22 @@ func ParseSpec(pkg, file, text string) (sf *SpecFile, err error) {
 				if i < 0 {
 					panic("ghost assignment needs ':='")
 				}
-				pl := mk(rest[:i])
+				var qvars []QVar
+				lhsSrc := rest[:i]
+				if strings.HasPrefix(strings.TrimSpace(lhsSrc), "forall") {
+					j := strings.Index(lhsSrc, "::")
+					if j < 0 {
+						panic("ghost forall needs '::'")
+					}
+					pq := mk(strings.TrimSpace(lhsSrc)[len("forall"):strings.Index(strings.TrimSpace(lhsSrc), "::")] + " ::")
+					qvars = pq.parseVarList(func() bool { return pq.isOp("::") })
+					lhsSrc = lhsSrc[j+2:]
+				}
+				pl := mk(lhsSrc)
 				lhs := pl.parseExpr()
 				pr := mk(rest[i+2:])
 				rhs := pr.parseExpr()
-				ga := GhostAssign{lhs, rhs}
+				ga := GhostAssign{LHS: lhs, RHS: rhs, QVars: qvars}
 				if curL != nil {
 					curL.Ghost = append(curL.Ghost, ga)
 				} else if curF != nil {
